@@ -470,4 +470,37 @@ theorem clz_spec_characterisation (x : W) :
     · have e : 255 - (255 - Nat.log2 x.toNat) = Nat.log2 x.toNat := by omega
       rw [e]; exact Nat.log2_self_le h
 
+/-- SIGNEXTEND: for a < 31 the low 8(a+1) bits of b read as a two's complement number and re-encoded on
+    256 bits; b unchanged for a ≥ 31. -/
+theorem signextend_impl_eq_spec (a b : W) : signextendImpl a b = signextendSpec a b := by
+  by_cases h31 : a.toNat < 31
+  · apply BitVec.eq_of_getLsbD_eq
+    intro i hi
+    rw [signextend_bits_impl a b (by omega) i hi, signextend_bits_spec a b h31 i hi]
+  · by_cases h32 : a.toNat < 32
+    · have ha : a.toNat = 31 := by omega
+      have hs : signextendSpec a b = b := by
+        unfold signextendSpec; simp [ha]
+      rw [hs]
+      apply BitVec.eq_of_getLsbD_eq
+      intro i hi
+      rw [signextend_bits_impl a b h32 i hi, ha]
+      by_cases h : i < 8 * 31 + 7
+      · simp [h]
+      · have : i = 8 * 31 + 7 := by omega
+        simp [this]
+    · have hs : signextendSpec a b = b := by
+        unfold signextendSpec
+        have : 31 ≤ a.toNat := by omega
+        simp [this]
+      have hi : ¬ a < 32#256 := by simp [BitVec.lt_def]; omega
+      rw [hs]; unfold signextendImpl; simp [hi]
+
+/-- The Yellow Paper's bitwise reading of SIGNEXTEND: with t = 8a + 7 (a < 31), bit i of the result is bit i
+    of b for i < t and bit t of b for t ≤ i < 256. -/
+theorem signextend_spec_bits (a b : W) (ha : a.toNat < 31) (i : Nat) (hi : i < 256) :
+    (signextendSpec a b).getLsbD i =
+      if i < 8 * a.toNat + 7 then b.getLsbD i else b.getLsbD (8 * a.toNat + 7) :=
+  signextend_bits_spec a b ha i hi
+
 end BA.Evm
